@@ -103,7 +103,7 @@ def g_milpb(a):
 
 
 @gen('soc', 'soc', {
-    'A': ([[1, 0.5, 0], [0, 1, 2]], 'm'), 'b': ([1, -0.5], ''), 'Q': ([[2, 0.5, 0], [0.5, 1, 0.25], [0, 0.25, 1.5]], ''),
+    'A': ([[1, 0.5, 0], [0, 1, 2]], 'm'), 'b': ([1, -0.5], ''), 'Q': ([[2, 0.5, 0.25], [0.5, 1, 0.25], [0.25, 0.25, 1.5]], ''),
     'c': ([1, 0.5, -1], ''), 'lb': ([-2, -2, -2], 'i'), 'r': (4, 'is')})
 def g_soc(a):
     rs = _rs()
@@ -282,7 +282,8 @@ def g_dro_l2(a):
 
 
 # ------------------------------------------------------------------------------------------------
-VARIANTS = ['f64', 'f32', 'i64', 'i32', 'fortran', 'strided', 'readonly', 'zerod', 'csr', 'csc']
+VARIANTS = ['f64', 'f32', 'i64', 'i32', 'fortran', 'transposed', 'f32fortran', 'strided', 'readonly', 'zerod', 'csr',
+            'csc']
 
 
 def applicable(gen_name, arr_name, variant):
@@ -292,7 +293,7 @@ def applicable(gen_name, arr_name, variant):
         return True
     if variant in ('i64', 'i32'):
         return 'i' in flags
-    if variant == 'fortran':
+    if variant in ('fortran', 'transposed', 'f32fortran'):
         return nd == 2
     if variant == 'strided':
         return nd >= 1
@@ -317,6 +318,11 @@ def make_variant(vals, variant):
         arr = base.astype(np.int32)
     elif variant == 'fortran':
         arr = np.asfortranarray(base)
+    elif variant == 'transposed':
+        keep = np.ascontiguousarray(base.T)      # the user's C-ordered matrix ...
+        arr = keep.T                             # ... handed over as its transposed VIEW (F-contiguous, not owning)
+    elif variant == 'f32fortran':
+        arr = np.asfortranarray(base.astype(np.float32))
     elif variant == 'strided':
         if base.ndim == 1:
             keep = np.zeros(2 * base.size + 1)
@@ -545,3 +551,66 @@ def redecl_build(gen_name, final=()):
         if r in ('row', 'bound'):
             redecl_apply(h, r)
     return m, h
+
+
+# ------------------------------------------------------------------------------------------------
+# 'incremental' family: the model classes rsome.lp.Model / rsome.socp.Model / rsome.gcp.Model used DIRECTLY
+# (ro / dro reset their inner model before every formulation, these do not).  A flavour is an objective and an
+# ordered list of declarations; `incr_model(flavour)` returns the model with nothing but the objective declared
+# and the list of declaration thunks.
+# ------------------------------------------------------------------------------------------------
+INCR = {'lp': 6, 'socp': 7, 'gcp': 7}        # flavour -> number of declarations
+
+
+def incr_model(flavour):
+    rs = _rs()
+    rso = rs['rso']
+    import rsome.lp as lpm
+    import rsome.socp as socpm
+    import rsome.gcp as gcpm
+    a = np.array([4.0, 0.0, -1.0])
+    b = np.array([0.0, 0.5, 0.0])
+    A = np.array([[1.0, 0.5, 0.0], [0.0, 1.0, -0.5]])
+    Q = np.array([[2.0, 0.5, 0.25], [0.5, 1.0, 0.25], [0.25, 0.25, 1.5]])
+    if flavour == 'lp':
+        m = lpm.Model()
+        x = m.dvar(3)
+        t = m.dvar()
+        m.min(rso.norm(x - a, 1) + 0.5 * t)
+        decl = [lambda: m.st([x >= -10, x <= 10]),
+                lambda: m.st(t >= 0),
+                lambda: m.st(rso.norm(x - b, 'inf') <= t),
+                lambda: m.st(abs(x[0] - x[1]) <= 3),
+                lambda: m.st(1.0 * x[0] + x[1] + x[2] <= 4.5),
+                lambda: m.st(rso.norm(A @ x, 1) <= 5)]
+    elif flavour == 'socp':
+        m = socpm.Model()
+        x = m.dvar(3)
+        t = m.dvar()
+        m.min(rso.norm(x - a) + 0.5 * t)
+        decl = [lambda: m.st([x >= -10, x <= 10]),
+                lambda: m.st(t >= 0),
+                lambda: m.st(rso.norm(x - b, 'inf') <= t),
+                lambda: m.st(rso.quad(x, Q) <= 30),
+                lambda: m.st(abs(x[1] + x[2]) <= 2),
+                lambda: m.st(rso.norm(A @ x) <= t + 1),
+                lambda: m.st(rso.sumsqr(x) <= 14)]
+    elif flavour == 'gcp':
+        m = gcpm.Model()
+        x = m.dvar(3)
+        t = m.dvar()
+        m.min(rso.norm(x - a, 1) + t)
+        decl = [lambda: m.st([x >= -10, x <= 10]),
+                lambda: m.st(rso.exp(0.25 * x[0]) <= t),
+                lambda: m.st(rso.norm(x - b, 'inf') <= 3 + t),
+                lambda: m.st(rso.norm(x) <= 4),
+                lambda: m.st(abs(x[0] - x[2]) <= 4.5),
+                lambda: m.st(rso.entropy(0.125 * x[1:] + 0.5) >= 0.5),
+                lambda: m.st(rso.norm(A @ x, 1) <= 6)]
+    else:
+        raise ValueError(flavour)
+    assert len(decl) == INCR[flavour]
+    return m, decl
+
+
+INCR_EXP_DECL = {'gcp': (1, 5)}      # positions of the declarations that use an exponential-cone atom
